@@ -14,35 +14,6 @@ import (
 	"go.etcd.io/bbolt"
 )
 
-// corruptDB damages the records of the given torrents in a closed resume database (the port value stops being a number),
-// so that the next session cannot load them.
-func corruptDB(path string, ids []string) error {
-	db, err := bbolt.Open(path, 0600, &bbolt.Options{Timeout: 2 * time.Second})
-	if err != nil {
-		return err
-	}
-	defer db.Close()
-	return db.Update(func(tx *bbolt.Tx) error {
-		tb := tx.Bucket([]byte("torrents"))
-		for _, id := range ids {
-			if b := tb.Bucket([]byte(id)); b != nil {
-				// two ways to be unloadable: the port is not a number (Read fails), or the info-hash is not 20 bytes
-				// (newTorrent fails - its only failure, reachable at load only)
-				var err error
-				if len(id)%2 == 1 {
-					err = b.Put([]byte("port"), []byte("not-a-number"))
-				} else {
-					err = b.Put([]byte("info_hash"), []byte{1, 2, 3})
-				}
-				if err != nil {
-					return err
-				}
-			}
-		}
-		return nil
-	})
-}
-
 // ---------------------------------------------------------------------------------------------
 // resumer field codec: value classes are chosen by TLC (MC_Session_codec), materialised here
 
@@ -190,7 +161,7 @@ func codec(casesPath, out string) {
 		json.Unmarshal(b, &c) // field names match case-insensitively
 		n++
 		id := fmt.Sprintf("t%d", n)
-		line := ev{"op": "Codec", "n": n, "case": raw, "err": "", "neq": []string{}, "jneq": []string{}, "pneq": []string{}}
+		line := ev{"op": "Codec", "n": n, "case": raw, "err": "", "neq": []string{}, "jneq": []string{}, "pneq": []string{}, "oneq": []string{}}
 		func() {
 			defer func() {
 				if r := recover(); r != nil {
@@ -208,6 +179,24 @@ func codec(casesPath, out string) {
 				return
 			}
 			line["neq"] = diff(want, got, true)
+			// Write over an EXISTING bucket (the record of a previous owner of the id, every value non-empty): the record
+			// reads back equal to what was written last - nothing of the previous owner shows through
+			oid := fmt.Sprintf("o%d", n)
+			prev := codecCase{Trk: 3, Url: 3, Fp: 3, Name: 2, Info: 2, Bf: 3, At: 2, Dl: 2, Ul: 3, Wa: 1, Sf: 2, Ver: 1, Port: 2, St: !c.St, Sad: !c.Sad, Sam: !c.Sam, Ccr: !c.Ccr, Sq: !c.Sq}
+			if err := res.Write(oid, prev.spec()); err != nil {
+				line["err"] = "write-prev: " + err.Error()
+				return
+			}
+			if err := res.Write(oid, want); err != nil {
+				line["err"] = "overwrite: " + err.Error()
+				return
+			}
+			got2, err := res.Read(oid)
+			if err != nil {
+				line["err"] = "read-overwritten: " + err.Error()
+				return
+			}
+			line["oneq"] = diff(want, got2, true)
 			// partial writers: each changes exactly its own keys
 			exp := *got
 			pneq := []string{}
